@@ -1302,25 +1302,32 @@ class CompositeEnvelope:
             Traced out system including only the requested states in tesored
             in the order in which the states are given
         """
+        if len(states) == 1 and not isinstance(states[0].index, (tuple, list)):
+            # The state is not stored in this composite envelope's product states
+            return states[0].trace_out()
         product_states = [
             p for p in self.states if any(so in p.state_objs for so in states)
         ]
-        assert len(product_states) > 0, "No product state found"
         ps: ProductState
-        if len(product_states) > 1:
+        if len(product_states) != 1 or not all(
+            any(s is so for so in product_states[0].state_objs) for s in states
+        ):
             all_states = [s for s in states]
             for p in product_states:
                 all_states.extend([s for s in p.state_objs])
             self.combine(*all_states)
-            product_states = [
-                p for p in self.states if any(so in p.state_objs for so in states)
-            ]
-            assert (
-                len(product_states) > 0
-            ), "Only one product state should exist at this point"
-        ps = product_states[0]
 
         self.reorder(*states)
+
+        product_states = [
+            p
+            for p in self.states
+            if all(any(s is so for so in p.state_objs) for s in states)
+        ]
+        assert (
+            len(product_states) == 1
+        ), "Only one product state should exist at this point"
+        ps = product_states[0]
 
         return ps.trace_out(*states)
 
